@@ -110,6 +110,17 @@ PROPS["C11"] = {
     "assumptions": [],
 }
 
+PROPS["C09"] = {
+    "claim": "namespace_for_prefix / prefix_for_namespace / is_prefix_defined / namespaces_in_scope / inherited_prefixes / "
+             "unresolved_namespaces / node_name_ref / full_name agree with a nearest-declaration-wins reference scope",
+    "harnesses": [H("h_c09_scope", {"NC1": 3}, {"NC1": 8}, shards={"quick": shard_product(("c0", 8), ("node", 4)), "thorough": shard_product(("c0", 8), ("node", 4))}, budget=(900, 2400))],
+    "bounds": {"quick": "element chains of depth 3, outer and inner element with one of 8 declaration layouts over prefixes "
+                        "{'',p,q} and namespaces {none,A,B}, middle element one of 3 (thorough: 8; 512 layouts), element name in 3 namespaces, attribute name in 2; queries from the "
+                        "innermost element, its text child, its attribute node and the middle element", "thorough": "same"},
+    "outside": "deeper chains, more than two declarations per element, declarations on unattached siblings",
+    "assumptions": ["HashMap/HashSet iteration order is modelled as insertion order (Prefixes maps are compared as sets)"],
+}
+
 PROPS["DBG"] = {
     "claim": "debug probes", "harnesses": [H("h_probe_tree"), H("h_probe_tostring"), H("h_probe_parse")],
     "bounds": {"quick": "-", "thorough": "-"}, "outside": "", "assumptions": [],
